@@ -19,7 +19,10 @@ Step(s, e) ==
   IF e.panic # "" THEN <<"", Skip>>
   ELSE IF e.op = "process" THEN
        LET r == T!ProcessF(s, e.d) IN
-       IF r.res # e.res \/ T!Ids(r.closed) # e.closed \/ T!Ids(T!OpenView(r.s)) # e.open THEN <<"", Skip>>   \* C10's business
+       \* duplicate detection beyond "twice in a row" depends on the capacity of the record of received times (ten
+       \* distinct times): modelled as the library has it, reported here and not under C10
+       IF r.res # e.res /\ r.res \in {"ok", "dup"} /\ e.res \in {"ok", "dup"} THEN <<"duplicate-detection-" \o r.res \o "-expected-got-" \o e.res, Skip>>
+       ELSE IF r.res # e.res \/ T!Ids(r.closed) # e.closed \/ T!Ids(T!OpenView(r.s)) # e.open THEN <<"", Skip>>   \* C10's business
        ELSE IF r.res = "ok" /\ r.warn # e.warn THEN <<"validation-error-" \o r.warn \o "-expected-got-" \o e.warn, [ok |-> TRUE, s |-> r.s]>>
        ELSE <<"", [ok |-> TRUE, s |-> r.s]>>
   ELSE IF e.op = "close" THEN
